@@ -2215,6 +2215,46 @@ def _make_time(I):
 
 
 EXTRA_MODULES["time"] = _make_time
+
+
+def _make_itertools(I):
+    import itertools as it
+
+    from .interp import BuiltinFn
+
+    def combinations(xs, r):
+        return OneShot(list(it.combinations(iterate(I, xs), r)))
+
+    def chain(*xs):
+        out = []
+        for x in xs:
+            out.extend(iterate(I, x))
+        return OneShot(out)
+
+    def product(*xs, repeat=1):
+        return OneShot(list(it.product(*[iterate(I, x) for x in xs], repeat=repeat)))
+
+    def accumulate(xs, func=None, initial=None):
+        out = []
+        acc = initial
+        items = iterate(I, xs)
+        if initial is not None:
+            out.append(initial)
+        for x in items:
+            if acc is None:
+                acc = x
+            else:
+                acc = I.call_value(func, [acc, x]) if func is not None else I.binop(ast.Add(), acc, x)
+            out.append(acc)
+        return OneShot(out)
+
+    def permutations(xs, r=None):
+        return OneShot(list(it.permutations(iterate(I, xs), r)))
+
+    return NativeModule("itertools", {k: BuiltinFn(k, v) for k, v in dict(combinations=combinations, chain=chain, product=product, accumulate=accumulate, permutations=permutations).items()})
+
+
+EXTRA_MODULES["itertools"] = _make_itertools
 EXTRA_MODULES["numbers"] = lambda I: NativeModule("numbers", {"Real": NumbersReal, "Number": NumbersNumber})
 
 
